@@ -25,6 +25,7 @@ def task(seed):
             o["grid_size"] = 11
         else:
             break
+    spec["draw_budget"] = 5000000  # per generator; a run that needs more is reported as a hang (StepBudgetExceeded)
     h = wp.run_pipeline(spec)
     problems = []
     o = spec["options"]
